@@ -82,6 +82,7 @@ func dpWorker(ls []float64, threshold float64, mask []byte, stride int) int {
 			}
 		}
 
+		verifEmit("dp", start, end, maxIndex, len(stack))
 		if maxDist > threshold*threshold {
 			found++
 			mask[maxIndex] = 1
